@@ -186,18 +186,36 @@ class MemoCallable(object):
         return list(r)
 
 
-class FaultyCallable(object):
-    """F4: raises at its k-th invocation (counted per process copy, as a real
-    pickled callable would)"""
+class _UnconvertibleStr(str):
+    """a label that fails when the extension converts it to bytes"""
 
-    def __init__(self, inner, fail_at, message='injected grammar fault'):
+    def encode(self, *args, **kwargs):
+        raise RuntimeError('injected grammar fault (a result that cannot be converted)')
+
+
+class FaultyCallable(object):
+    """F4: fails at its k-th invocation (counted per process copy, as a real pickled callable would).
+    mode 'raise': the call raises.  mode 'malformed_tail': the k-th invocation that has results returns them
+    followed by one more whose label cannot be converted, so the extension fails in the middle of taking the
+    list over, after it has accepted the first results"""
+
+    def __init__(self, inner, fail_at, message='injected grammar fault', mode='raise'):
         self.inner = inner
         self.fail_at = fail_at
         self.message = message
+        self.mode = mode
         self.calls = 0
         self.fired = 0
 
     def __call__(self, *args):
+        if self.mode == 'malformed_tail':
+            res = self.inner(*args)
+            if res:
+                self.calls += 1
+                if self.fail_at is not None and self.calls == self.fail_at:
+                    self.fired += 1
+                    return list(res) + [res[0]._replace(op_string=_UnconvertibleStr('bad'))]
+            return res
         self.calls += 1
         if self.fail_at is not None and self.calls == self.fail_at:
             self.fired += 1
